@@ -351,6 +351,11 @@ func (c *caseT) classes() []string {
 			set["tag:-(ignored field)"] = true
 		}
 	}
+	for _, l := range c.m.Leaves {
+		if l.Spec.TagSpace > 0 && l.Spec.Tag() != "" {
+			set["tag:spacing"] = true
+		}
+	}
 	styles := map[int]string{1: "tag-keys-upper-case", 2: "tag-primary_key-alias"}
 	for _, l := range c.m.Leaves {
 		if st, ok := styles[l.Spec.TagStyle]; ok && l.Spec.Tag() != "" {
